@@ -59,7 +59,11 @@ def gen(seed, tier):
                     if tier == "quick" and (k + k // 64) % 3 != j:
                         continue
                     yield {"prop": PROP, "op": op, "d": 0, "dflt": 0, "a": a, "b": b, "kind": "fmt",
-                           "fa": fa, "fb": fb, "sa": 3, "sb": 3}
+                           "fa": fa, "fb": fb, "sa": 3, "sb": 3,
+                           # every other case: after the first pass both tensors are re-declared wider and grown,
+                           # and the same fiber objects are co-iterated again (nothing may be remembered from the
+                           # first pass)
+                           "grow": (k + j) % 2 == 1}
                     # the same declaration made on an unowned fiber's own rank attributes, with a
                     # restricted active range [la, sa) every now and then
                     if (k + j) % 2 == 0:
@@ -162,6 +166,7 @@ def _run_tuple(case):
         case["impl"] = rows
         if _has_foreign(rows):
             side["delivered_payloads_are_stored_or_fresh_default"] = False
+        _note_unaware(rows, side)
         _fresh_distinct(side)
     except Exception as e:
         case["impl"] = []
@@ -171,6 +176,7 @@ def _run_tuple(case):
     return case
 
 
+CUR = {}         # facts about the case being run that `_ref` needs (number of levels below the co-iterated rank)
 FRESH = []      # the fresh defaults delivered while the current case runs (kept alive so that ids stay unique)
 
 
@@ -183,7 +189,15 @@ def _ref(fiber, p, dflt, leaf=None):
     Fiber, Payload = H.ft().Fiber, H.ft().Payload
     if isinstance(p, Fiber):
         if len(p.coords) == 0 and leaf is not True:
+            # a fresh element-less fiber standing in for an absent row of leaves must itself know the leaf
+            # default (one level further down it is what an absent element reads as)
             FRESH.append(p)
+            if leaf is False and CUR.get("d") == 1:
+                try:
+                    if Payload.get(p.getDefault()) != dflt:
+                        return -3
+                except Exception:
+                    return -3
             return -1
         return -2
     if leaf is False:
@@ -216,6 +230,20 @@ def _fresh_distinct(side):
 
 def _ranks(t):
     return [[id(f) for f in r.getFibers()] for r in t.ranks]
+
+
+def _has_unaware(rows):
+    """a fresh element-less fiber that does not carry the leaf default was delivered (code -3)"""
+    def walk(x):
+        if isinstance(x, list):
+            return any(walk(y) for y in x)
+        return x == -3
+    return any(walk(r[1:]) for r in rows)
+
+
+def _note_unaware(rows, side):
+    if _has_unaware(rows):
+        side["fresh_fiber_default_knows_leaf_default"] = False
 
 
 def _has_foreign(rows):
@@ -305,6 +333,7 @@ def _run_nary(case):
         case["impl"] = rows
         if _has_foreign(rows):
             side["delivered_payloads_are_stored_or_fresh_default"] = False
+        _note_unaware(rows, side)
         _fresh_distinct(side)
     except Exception as e:
         case["impl"] = []
@@ -318,6 +347,7 @@ def _run_nary(case):
 
 def run(case):
     del FRESH[:]
+    CUR["d"] = case.get("d")
     ft = H.ft()
     if "ops" in case:
         return _run_nary(case)
@@ -386,6 +416,7 @@ def run(case):
         case["impl"] = rows
         if _has_foreign(rows):
             side["delivered_payloads_are_stored_or_fresh_default"] = False
+        _note_unaware(rows, side)
         _fresh_distinct(side)
     except Exception as e:  # a crash on a legal input is an observation
         case["impl"] = []
@@ -394,6 +425,18 @@ def run(case):
     after = (H.snapshot(fa), H.snapshot(fb), [_ranks(t) for t in tensors])
     side["operands_unchanged"] = before[:2] == after[:2]
     side["rank_lists_unchanged"] = before[2] == after[2]
+    if case.get("grow") and case["kind"] == "fmt" and not case.get("own") and "implerr" not in case:
+        try:
+            for t, f, sk in ((tensors[0], fa, "sa"), (tensors[1], fb, "sb")):
+                t.setShape([case[sk] + 2])
+                f.append(case[sk], 5)
+            case.update({"a2": H.snapshot(fa), "b2": H.snapshot(fb), "sa2": case["sa"] + 2, "sb2": case["sb"] + 2})
+            case["impl2"] = rows_of(make())
+            if _has_foreign(case["impl2"]):
+                side["delivered_payloads_are_stored_or_fresh_default"] = False
+        except Exception as e:
+            case["impl2"] = []
+            side["no_exception_after_growth:" + H.err_class(e)] = False
     case["side"] = side
     return case
 
